@@ -7,7 +7,7 @@ from sim import invoker, fakevcs
 
 PLAIN = ["README.md", "README.rst", "setup.py"]
 CONFIGS = ["setup.cfg", "pyproject.toml", "bumpver.toml", ".bumpver.toml", "pycalver.toml"]
-KINDS = ["absent", "empty", "unrelated_nl", "unrelated_nonl", "section", "section_crlf"]
+KINDS = ["absent", "empty", "unrelated_nl", "unrelated_nonl", "section", "section_crlf", "lookalike"]
 SPACE = (2 ** len(PLAIN)) * (len(KINDS) ** len(CONFIGS))
 DATES = [dt.datetime(2023, 6, 15, 12, 0, 0), dt.datetime(2023, 12, 31, 23, 59, 59), dt.datetime(2024, 1, 1, 0, 0, 1)]
 
@@ -21,6 +21,14 @@ def unrelated(name, final_nl):
     else:
         text = "[metadata]\nname = demo\n\n[flake8]\nmax-line-length = 100"
     return (text + ("\n" if final_nl else "")).encode()
+
+
+def lookalike(name):
+    """Other tools' sections that merely mention bumpver and a current_version key; not a bumpver configuration."""
+    if name.endswith(".toml"):
+        return (b'[project]\nname = "demo"\n\n[tool.hatch.envs.bumpver]\ndependencies = ["bumpver"]\n\n'
+                b'[tool.other]\ncurrent_version = "9.9.9"\n')
+    return b"[metadata]\nname = demo\n\n[tool:notbumpver]\ncurrent_version = 9.9.9\n"
 
 
 def section(name, version):
@@ -85,6 +93,8 @@ class Init:
                 files[name] = unrelated(name, True)
             elif kind == "unrelated_nonl":
                 files[name] = unrelated(name, False)
+            elif kind == "lookalike":
+                files[name] = lookalike(name)
             else:
                 version = "%d.%d" % (2001 + i, 1001 + i)
                 sectioned[name] = version
